@@ -18,6 +18,8 @@ type VRec struct {
 	Seed   uint64 `json:"run_seed"`
 	Ops    int    `json:"ops_after_minimisation"`
 	Ops0   int    `json:"ops_before_minimisation"`
+	// Confirmed: already reproduced twice in fresh processes (crash classes)
+	Confirmed bool `json:"confirmed_by_rerun,omitempty"`
 }
 
 type WorkerResult struct {
